@@ -138,6 +138,15 @@ impl PaddingFactory {
     }
 }
 
+// H8: start a simulated case from a pristine process-wide default
+#[cfg(anytls_verif)]
+impl PaddingFactory {
+    pub fn verif_reset_default() {
+        // the default factory is write-once: nothing can be reset here, which is why the checks
+        // that involve it run one case per process
+    }
+}
+
 #[cfg(test)]
 mod tests {
     use super::*;
